@@ -851,6 +851,25 @@ Proof.
   destruct (is_digit x) eqn:G; [apply is_digit_rng in G; auto | discriminate].
 Qed.
 
+Lemma lit_tight : spec_lit_tight.
+Proof.
+  intros d i H. unfold tight_at, value_at. destruct i as [|x s]; [discriminate H|].
+  assert (Hf : exists f, fuel_of (x :: s) = S f) by (exists (2 * length (x :: s) + 1)%nat; unfold fuel_of; lia).
+  destruct Hf as [f ->]. cbn [pval tk].
+  apply orb_true_iff in H as [H|H].
+  - cbn [is_str_lit] in H. apply andb_true_iff in H as [Hx H]. apply N.eqb_eq in Hx; subst x.
+    change (tok_of 34) with TQuote. cbv iota. destruct (pstr s) as [[b [|? ?]]|]; try discriminate H. reflexivity.
+  - unfold is_num_lit in H. destruct (pnum (x :: s)) as [[n [|? ?]]|] eqn:E; try discriminate H.
+    pose proof (pnum_first _ _ _ _ E) as Hx.
+    assert (Ht : tok_of x = TOther).
+    { unfold tok_of. repeat match goal with |- context [?a =? ?b] => replace (a =? b) with false by (symmetry; apply N.eqb_neq; lia) end. reflexivity. }
+    rewrite Ht. cbv iota. unfold pscalar. cbn [strip_prefix lit_true lit_false lit_null].
+    replace (116 =? x) with false by (symmetry; apply N.eqb_neq; lia).
+    replace (102 =? x) with false by (symmetry; apply N.eqb_neq; lia).
+    replace (110 =? x) with false by (symmetry; apply N.eqb_neq; lia).
+    rewrite E. reflexivity.
+Qed.
+
 Lemma lit_valid_id i : is_str_lit i || is_num_lit i = true -> is_valid_id i = true /\ i <> [] /\ is_null i = false.
 Proof.
   intros H. destruct i as [|x s]; [discriminate H|]. split; [|split; [discriminate|]].
@@ -897,7 +916,7 @@ Section ParseBack.
   Hypothesis Hmem : spec_members.
   Hypothesis Hstr : spec_string.
   Hypothesis Herr : spec_error_codec.
-  Hypothesis Hlit : spec_lit_tight.
+  Let Hlit : spec_lit_tight := lit_tight.
 
   Lemma fields_ok m eb : msg_rt m ->
     (forall e, j_error m = Some e -> negb (beq (j_method m) []) = false -> negb (beq (j_result m) []) = false -> marshal_error e = Some eb) ->
@@ -1015,20 +1034,20 @@ Proof.
 Qed.
 
 Lemma parse_back_partial :
-  spec_members -> spec_string -> spec_error_codec -> spec_lit_tight -> spec_obj_tight -> spec_raw_value ->
+  spec_members -> spec_string -> spec_error_codec -> spec_obj_tight -> spec_raw_value ->
   forall m b, msg_rt m -> enc_msg m = Some b ->
     parse_member b = canon m /\ parse_msgs b = InMsgs false [canon m] /\
     parse_requests b = Parsed [to_parsed (canon m)].
 Proof.
-  intros H1 H2 H3 H4 H5 H6 m b Hrt Henc.
-  pose proof (parse_back_single H1 H2 H3 H4 H5 H6 m b Hrt Henc) as Hs.
-  split; [exact (parse_back_member H1 H2 H3 H4 m b Hrt Henc)|]. split; [exact Hs|].
+  intros H1 H2 H3 H5 H6 m b Hrt Henc.
+  pose proof (parse_back_single H1 H2 H3 H5 H6 m b Hrt Henc) as Hs.
+  split; [exact (parse_back_member H1 H2 H3 m b Hrt Henc)|]. split; [exact Hs|].
   unfold parse_requests. rewrite Hs. reflexivity.
 Qed.
 
 Lemma independent_partial :
-  spec_members -> spec_string -> spec_error_codec -> spec_lit_tight ->
+  spec_members -> spec_string -> spec_error_codec ->
   forall m b, msg_rt m -> enc_msg m = Some b ->
     exists eb, raw_members b = Some (msg_fields m eb) /\ lookup k_jsonrpc (msg_fields m eb) = Some v20 /\
                unmarshal_string v20 = Some (Some version).
-Proof. intros H1 H2 H3 H4. exact (independent_members H1 H2 H3 H4). Qed.
+Proof. intros H1 H2 H3. exact (independent_members H1 H2 H3). Qed.
